@@ -96,7 +96,23 @@ pub fn generate(g: &mut G, _index: u64) -> Scenario {
             ops.push(Op::Stop { h: PRIMARY })
         }
     };
-    match g.below(12) {
+    match g.below(13) {
+        12 => {
+            // three joins: the first pending in a task of its own, the second answered None while
+            // the first is pending, the third begun before the actor ends - the first still gets
+            // the value, nobody waits for ever
+            ops.push(Op::JoinStart { h: PRIMARY });
+            ops.push(Op::JoinStart { h: PRIMARY });
+            ops.push(Op::JoinStart { h: PRIMARY });
+            ops.push(Op::JoinSpawn);
+            ops.push(Op::Yield(g.range(1, 3) as u32));
+            ops.push(Op::JoinPoll);
+            ops.push(Op::JoinPoll);
+            stop(ops);
+            ops.push(Op::JoinFinish);
+            ops.push(Op::JoinFinish);
+            ops.push(Op::JoinCollect);
+        }
         11 => {
             // two join futures pending at the same time in different tasks: both resolve when the
             // actor has terminated (one gets the value, the other None)
